@@ -624,12 +624,13 @@ func (w *World) monitor(o Op, before, after Snap, balBefore map[int]*big.Int, pe
 	if (o.K == "transfer" || o.K == "transferFrom") && err != nil {
 		// liveness of the interface: with a sufficient delegation, no incoming redelegation and (for
 		// transferFrom) a sufficient allowance there is no reason to refuse
-		from, spender := o.A, -1
+		from, to, spender := o.A, o.B, -1
 		if o.K == "transferFrom" {
-			spender, from = o.A, o.B
+			spender, from, to = o.A, o.B, o.C
 		}
 		x := bigOf(o.X)
-		okPre := x.Sign() > 0 && before.Vals[o.V].del(from).Cmp(new(big.Int).Mul(x, one18)) >= 0
+		// (refusing sender == recipient is a legitimate way of "changing nothing")
+		okPre := from != to && x.Sign() > 0 && before.Vals[o.V].del(from).Cmp(new(big.Int).Mul(x, one18)) >= 0
 		for _, rd := range before.Reds {
 			if rd[0] == from && rd[2] == o.V {
 				okPre = false
@@ -909,10 +910,25 @@ func (w *World) gen(r *lib.Rand, s Snap, self bool) Op {
 			}
 		}
 		x := shareAmt(from)
-		if al := s.allowance(v, from, sp); al.Sign() > 0 && r.Chance(40) {
-			x = new(big.Int).Set(al) // exactly the allowance
-			if r.Chance(30) {
-				x.Add(x, big.NewInt(1))
+		if al := s.allowance(v, from, sp); al.Sign() > 0 {
+			whole := new(big.Int).Quo(s.Vals[v].del(from), one18)
+			lim := new(big.Int).Set(al) // what can actually move: min(allowance, whole shares held)
+			if whole.Cmp(lim) < 0 {
+				lim.Set(whole)
+			}
+			switch r.Intn(10) {
+			case 0, 1:
+				x = new(big.Int).Set(al) // exactly the allowance
+			case 2:
+				x = new(big.Int).Add(al, big.NewInt(1)) // one more than allowed
+			case 3, 4, 5:
+				if lim.Sign() > 0 {
+					x = lim
+				}
+			case 6, 7, 8:
+				if lim.Sign() > 0 {
+					x = new(big.Int).Add(big.NewInt(1), new(big.Int).Rand(r.Rand, lim))
+				}
 			}
 		}
 		return Op{K: "transferFrom", V: v, A: sp, B: from, C: to, X: x.String()}
@@ -983,6 +999,8 @@ type result struct {
 	nOK      map[string]int
 	selfSeen bool
 	harness  string
+
+	endBalances []*big.Int
 }
 
 func coqObs(o Op, ok bool, s Snap, full bool) string {
@@ -1122,6 +1140,9 @@ func runHistory(h History, r *lib.Rand, n int) *result {
 		cur = after
 	}
 	res.final = cur
+	for i := range w.accs {
+		res.endBalances = append(res.endBalances, w.balance(w.c.Ctx, i))
+	}
 	return res
 }
 
@@ -1148,6 +1169,9 @@ func main() {
 		}
 		for _, f := range res.fails {
 			fmt.Println("MONITOR:", f.kind, "-", f.what)
+		}
+		for i, b := range res.endBalances {
+			fmt.Printf("account %d: liquid balance at the end %s (funded with 50000000 FX = 5e25)\n", i, b)
 		}
 		if len(res.fails) > 0 {
 			os.Exit(1)
